@@ -148,6 +148,7 @@ pub struct Conn {
     pub tx_burst: u64,
     pub tx_window_at: Ns,
     pub tx_window: u64,
+    pub mtu_probes_seen: u64,
     pub last_timeout_serviced: Option<Ns>,
     pub same_instant_timeouts: u32,
     pub connected_at: Option<Ns>,
@@ -170,6 +171,8 @@ pub struct TxRec {
     /// accounting snapshots around the call (when drv.track_probe)
     pub before: Option<quinn_proto::VerifProbe>,
     pub after: Option<quinn_proto::VerifProbe>,
+    /// the connection counted this transmit as a path-MTU probe (`stats().path.sent_plpmtud_probes`)
+    pub mtu_probe: bool,
 }
 
 #[derive(Clone, Debug)]
@@ -520,6 +523,7 @@ impl World {
             tx_burst: 0,
             tx_window_at: 0,
             tx_window: 0,
+            mtu_probes_seen: 0,
             last_timeout_serviced: None,
             same_instant_timeouts: 0,
             connected_at: None,
@@ -779,7 +783,16 @@ impl World {
         let (pk_from, before) = self.tx_ctx.take().unwrap_or((usize::MAX, None));
         let pk_to = if pk_from == usize::MAX { usize::MAX } else { self.tap.lock().unwrap().pkts.len() };
         let after = if before.is_some() && inc != NO_INC { Some(self.conns[inc as usize].conn.verif_probe()) } else { None };
-        self.txlog.push(TxRec { inc, t: self.now, size: t.size, segment_size: t.segment_size, first_dgram: first, n_dgrams: n, dst: t.destination, mtu_before, pk_from, pk_to, before, after });
+        let mtu_probe = if inc != NO_INC && (inc as usize) < self.conns.len() {
+            let c = &mut self.conns[inc as usize];
+            let cur = c.conn.stats().path.sent_plpmtud_probes;
+            let p = cur > c.mtu_probes_seen;
+            c.mtu_probes_seen = cur;
+            p
+        } else {
+            false
+        };
+        self.txlog.push(TxRec { inc, t: self.now, size: t.size, segment_size: t.segment_size, first_dgram: first, n_dgrams: n, dst: t.destination, mtu_before, pk_from, pk_to, before, after, mtu_probe });
         if n > 1 {
             self.probes.hit("gso_batch");
         }
@@ -912,6 +925,7 @@ impl World {
                             tx_burst: 0,
                             tx_window_at: 0,
                             tx_window: 0,
+                            mtu_probes_seen: 0,
                             last_timeout_serviced: None,
                             same_instant_timeouts: 0,
                             connected_at: None,
